@@ -1040,6 +1040,11 @@ fn directed(out: &mut Sink, r: &mut Rng) -> Vec<Scenario> {
     v
 }
 
+#[path = "pushchunk_leaf.rs"]
+pub mod pushchunk;
+#[path = "pushchunk_lb.rs"]
+pub mod pushchunk_lb;
+
 pub fn run(seed: u64, cases: usize, out: &mut Sink) {
     let mut rng = Rng::new(seed ^ 0x1EAF_0D);
     let mut r0 = rng.fork();
